@@ -14,6 +14,7 @@
 typedef struct vp_std_string { char *p; uint64_t n; union { char buf[16]; uint64_t cap; } u; } vp_std_string;
 #include <stdlib.h>
 static unsigned vp_hint_digits, vp_hint_len;
+static char vp_fill = ' ';
 static char vp_cap[128]; static uint64_t vp_cap_n;
 static void vp_cap_put(char c) { if (vp_cap_n < 127) vp_cap[vp_cap_n++] = c; }
 static void vp_cap_puts(const char *s) { if (s == 0) return; for (unsigned i = 0; i < 100; ++i) { if (s[i] == 0) break; vp_cap_put(s[i]); } }
@@ -37,7 +38,7 @@ void vp_fmt_hint_len(unsigned n) { vp_hint_len = n; }
 static void vp_ios_init(char *ios) { *(uint64_t *)(ios + 8) = 6; *(uint64_t *)(ios + 16) = 0; *(uint32_t *)(ios + 24) = 0x1002; }
 void _ZNSt7__cxx1118basic_stringstreamIcSt11char_traitsIcESaIcEEC1Ev(void *ss)
 {
-  vp_cap_n = 0;
+  vp_cap_n = 0; vp_fill = ' ';
   vp_vt_is[0] = 128; vp_vt_os[0] = 112;
   *(void **)ss = &vp_vt_is[3];
   *(void **)((char *)ss + 16) = &vp_vt_os[3];
@@ -62,16 +63,30 @@ uint32_t vp_fmt_dec(void *buf_, uint64_t v)
 static void vp_put_unsigned(void *o, uint64_t v)
 {
   uint32_t fl = vp_os_flags(o);
-  VP_ASSERT(vp_os_width(o) == 0, "stream model: width is 0");
+  uint64_t width = vp_os_width(o);
+  VP_ASSERT(width <= 8, "stream model: width <= 8 (bound)");
+  VP_ASSERT((fl & 0x30) == 0, "stream model: right adjustment only");      /* left|internal (adjustfield) not modelled */
   uint32_t base = fl & 0x4a;
   if (base == 8 || base == 0x40)
     {
       unsigned sh = base == 8 ? 4 : 3;
       unsigned k = vp_hint_digits;
+      if (k == 0)
+        {
+          /* no announcement: count the digits (symbolic length; only for harnesses without heap-side strings) */
+          k = 1;
+          for (unsigned i = 1; i < 22; ++i)
+            if (i * sh < 64 && (v >> (i * sh)) != 0)
+              k = i + 1;
+        }
       /* the value has exactly k digits in this radix (k announced by the harness) */
       _Bool fits = (k * sh >= 64 || (v >> (k * sh)) == 0) && (k == 1 || (v >> ((k - 1) * sh)) != 0) && k >= 1 && k <= 22;
       VP_ASSERT(fits, "stream model expectation: number reaching the stream has the announced digit count");
       VP_ASSUME(fits);
+      unsigned total = k + (((fl & 0x200) && v != 0) ? (base == 8 ? 2 : 1) : 0);
+      for (unsigned i = 0; i < 8; ++i)
+        if (total + i < width)
+          vp_cap_put(vp_fill);
       if ((fl & 0x200) && v != 0) { vp_cap_put('0'); if (base == 8) vp_cap_put((fl & 0x4000) ? 'X' : 'x'); }
       for (unsigned i = 0; i < 22; ++i)
         if (i < k)
@@ -83,9 +98,12 @@ static void vp_put_unsigned(void *o, uint64_t v)
   else
     {
       char buf[20];
+      VP_ASSERT(width == 0, "stream model: no width for decimal numbers");
       vp_fmt_dec(buf, v);
       for (unsigned i = 0; i < 20; ++i) vp_cap_put(buf[i]);
     }
+  /* num_put resets the width */
+  { int64_t off = ((int64_t *)(*(void **)o))[-3]; *(uint64_t *)((char *)o + off + 16) = 0; }
 }
 void _ZNSt7__cxx1118basic_stringstreamIcSt11char_traitsIcESaIcEED1Ev(void *ss) { (void)ss; }
 void _ZNSt7__cxx1119basic_ostringstreamIcSt11char_traitsIcESaIcEEC1Ev(void *ss) { (void)ss; vp_cap_n = 0; }
@@ -94,22 +112,48 @@ void _ZNKSt7__cxx1118basic_stringstreamIcSt11char_traitsIcESaIcEE3strEv(void *re
 void _ZNKSt7__cxx1119basic_ostringstreamIcSt11char_traitsIcESaIcEE3strEv(void *ret, void *ss) { (void)ss; vp_string_empty(ret); }
 void *_ZStlsISt11char_traitsIcEERSt13basic_ostreamIcT_ES5_PKc(void *o, void *s) { vp_cap_puts((const char *)s); return o; }
 void *_ZStlsISt11char_traitsIcEERSt13basic_ostreamIcT_ES5_c(void *o, uint8_t c) { vp_cap_put((char)c); return o; }
-void *_ZStlsIcSt11char_traitsIcESaIcEERSt13basic_ostreamIT_T0_ES7_RKNSt7__cxx1112basic_stringIS4_S5_T1_EE(void *o, void *s) { (void)s; return o; }
+void *_ZStlsIcSt11char_traitsIcESaIcEERSt13basic_ostreamIT_T0_ES7_RKNSt7__cxx1112basic_stringIS4_S5_T1_EE(void *o, void *s)
+{ vp_std_string *x = (vp_std_string *)s; for (unsigned i = 0; i < 100; ++i) if (i < x->n) vp_cap_put(x->p[i]); return o; }
+/* direct access to the captured text for harnesses that avoid heap-side strings */
+uint32_t vp_cap_len(void) { return (uint32_t)vp_cap_n; }
+uint8_t vp_cap_at(uint32_t i) { return i < vp_cap_n ? (uint8_t)vp_cap[i] : 0; }
+/* <cctype>: C / UTF-8 locale */
+int vp_libc_isprint(int c) { return c >= 0x20 && c <= 0x7e; }
 void *_ZSt16__ostream_insertIcSt11char_traitsIcEERSt13basic_ostreamIT_T0_ES6_PKS3_l(void *o, void *s, uint64_t n) { for (unsigned i = 0; i < 100; ++i) if (i < n) vp_cap_put(((const char *)s)[i]); return o; }
 void *_ZNSolsEm(void *o, uint64_t v) { vp_put_unsigned(o, v); return o; }
-void *_ZNSolsEl(void *o, uint64_t v) { (void)v; vp_cap_put('#'); return o; }
-void *_ZNSolsEi(void *o, uint32_t v) { (void)v; vp_cap_put('#'); return o; }
-void *_ZNSolsEj(void *o, uint32_t v) { (void)v; vp_cap_put('#'); return o; }
+static void vp_put_signed(void *o, int64_t v, unsigned bits);
+void *_ZNSolsEl(void *o, uint64_t v) { vp_put_signed(o, (int64_t)v, 64); return o; }
+void *_ZNSolsEi(void *o, uint32_t v) { vp_put_signed(o, (int64_t)(int32_t)v, 32); return o; }
+void *_ZNSolsEj(void *o, uint32_t v) { vp_put_unsigned(o, v); return o; }
 void *_ZNSo9_M_insertIbEERSoT_(void *o, _Bool v);
 void *_ZNSolsEb(void *o, _Bool v) { return _ZNSo9_M_insertIbEERSoT_(o, v); }
 void *_ZNSolsEPKv(void *o, void *v) { (void)v; return o; }
 void *_ZNSo9_M_insertImEERSoT_(void *o, uint64_t v) { vp_put_unsigned(o, v); return o; }
-void *_ZNSo9_M_insertIlEERSoT_(void *o, uint64_t v) { (void)v; vp_cap_put('#'); return o; }
+void *_ZNSo9_M_insertIlEERSoT_(void *o, uint64_t v) { vp_put_signed(o, (int64_t)v, 64); return o; }
 void *_ZNSo9_M_insertIbEERSoT_(void *o, _Bool v) { if (vp_os_flags(o) & 1) vp_cap_puts(v ? "true" : "false"); else vp_cap_put(v ? '1' : '0'); return o; }
 void *_ZNSo3putEc(void *o, uint8_t c) { (void)c; return o; }
 void *_ZNSo5flushEv(void *o) { return o; }
 void *_ZSt4endlIcSt11char_traitsIcEERSt13basic_ostreamIT_T0_ES6_(void *o) { return o; }
-uint8_t _ZNKSt9basic_iosIcSt11char_traitsIcEE4fillEv(void *ios) { (void)ios; return ' '; }
-uint8_t _ZNSt9basic_iosIcSt11char_traitsIcEE4fillEc(void *ios, uint8_t c) { (void)ios; (void)c; return ' '; }
+uint8_t _ZNKSt9basic_iosIcSt11char_traitsIcEE4fillEv(void *ios) { (void)ios; return (uint8_t)vp_fill; }
+uint8_t _ZNSt9basic_iosIcSt11char_traitsIcEE4fillEc(void *ios, uint8_t c) { (void)ios; uint8_t old = (uint8_t)vp_fill; vp_fill = (char)c; return old; }
 /* operator<<(ios_base&(*)(ios_base&)) is defined in harness/support_ios.cc (it has to call the real manipulator) */
 void *_ZNSolsEPFRSoS_E(void *o, void *manip) { (void)manip; return o; }
+/* signed insertion: decimal = sign and magnitude; hex / oct = the two's complement of the operand's width (as num_put does) */
+static void vp_put_signed(void *o, int64_t v, unsigned bits)
+{
+  uint32_t fl = vp_os_flags(o);
+  uint32_t base = fl & 0x4a;
+  VP_ASSERT((fl & 0x800) == 0, "stream model: showpos not modelled");
+  if (base == 8 || base == 0x40)
+    vp_put_unsigned(o, bits == 32 ? (uint64_t)(uint32_t)v : (uint64_t)v);
+  else
+    {
+      VP_ASSERT(vp_os_width(o) == 0, "stream model: no width for decimal numbers");
+      if (v < 0) { vp_cap_put('-'); vp_put_unsigned(o, (uint64_t)0 - (uint64_t)v); }
+      else vp_put_unsigned(o, (uint64_t)v);
+    }
+}
+/* <iomanip>: setw / setfill are extern templates for char */
+void *_ZStlsIcSt11char_traitsIcEERSt13basic_ostreamIT_T0_ES6_St5_Setw(void *o, uint32_t w)
+{ int64_t off = ((int64_t *)(*(void **)o))[-3]; *(uint64_t *)((char *)o + off + 16) = (uint64_t)(int64_t)(int32_t)w; return o; }
+void *_ZStlsIcSt11char_traitsIcEERSt13basic_ostreamIT_T0_ES6_St8_SetfillIS3_E(void *o, uint8_t c) { vp_fill = (char)c; return o; }
